@@ -105,6 +105,66 @@ CLAIMED = {
          'CPython string/dict/set semantics are modelled, not verified.',
          'DESIGN.md section 5, C17'),
 }
+
+CORE_TRUST = ('Trusted: Coq kernel + vm_compute; SQLite semantics as modelled in Model/Tables.v and Model/Query.v (scan orders, '
+              'DISTINCT, ORDER BY stability, GLOB-free queries), validated on every run by differential correspondence of the whole '
+              'observation battery (wn.add-built databases and table-level adversarial databases); the normalizer is a table of the '
+              'strings that occur; Morphy is excluded from the query-layer correspondence (own model, C17); correspondence harness '
+              'and document-level oracles (Python).')
+CLAIMED.update({
+ 'C04': ('Coq proof over a Gallina model of the query layer (Model/Tables.v, Model/Query.v, Model/Core.v: Wordnet construction, '
+         'primary queries, navigation, relations, expansion) written from wn/_queries.py and wn/_core.py; model tied to the code by '
+         'differential correspondence of a full observation battery on generated multi-lexicon databases; a document-level '
+         'oracle evaluates the property on the real code',
+         'Theorems (closed under the global context): every primary query of a Wordnet returns only entities of its selected '
+         'lexicons, bound to that Wordnet; every navigation and relation step from an entity stays in the scope of its receiver '
+         '(selection when restricted; own lexicon, its extension bases and extensions in default mode), expanded relation targets '
+         'are in scope or inferred placeholders; frame: each lexicon-restricted query returns the same rows on two databases that '
+         'agree on the rows of the selected lexicons and the rows they point to. Holds for databases satisfying db_ok (unique '
+         'rowids, no lexicon rowid 0, senses resolve), shown to hold on real dumps. Forms/tags/pronunciations contributed by '
+         'extensions are outside the theorems: known findings F14, F3 (decided by the oracle with signatures).',
+         CORE_TRUST, 'DESIGN.md section 5 C04, Appendix E'),
+ 'C09': ('Coq proof over the Gallina model of Wordnet.words/senses/synsets (_find_helper, find_entries/find_senses/find_synsets) '
+         'written from wn/_core.py and wn/_queries.py; differential correspondence of search batteries (lemmatizer tables with '
+         'several pos buckets, normalizer on/off, search_all_forms on/off); document-level oracle on the real code',
+         'Theorems (closed under the global context): the search is exactly "exact pass over every lemmatizer bucket, then, only if '
+         'that found nothing and a normalizer is set, one normalized pass", de-duplicated in first-occurrence order; the buckets are '
+         'the lemmatizer\'s proposals filtered by pos, or the form itself; every result has a form row matching a candidate form '
+         '(original or normalized column, lemma only when search_all_forms is off) with the requested pos inside the selection; '
+         'one pass is complete for entries, senses and synsets with a matching form. The statement about an empty proposal set '
+         '(no form restriction) is part of the theorem. Extension-contributed forms: known finding F14.',
+         CORE_TRUST, 'DESIGN.md section 5 C09, Appendix E'),
+ 'C10': ('Coq proof over the Gallina model of navigation (Sense.word/synset, Word.senses/synsets, Synset.senses/words/lemmas, '
+         'translate, entity equality keys) written from wn/_core.py; differential correspondence of the observation battery incl. '
+         'two-hop navigation and equality/hash of entities reached by different routes; document-level oracle on the real code',
+         'Theorems (closed under the global context): a sense navigates to exactly the entry and synset its row points to (given '
+         'the id is unique among the lexicons that can declare it and the entry has a form), and is listed among that word\'s / '
+         'synset\'s senses; Word.senses/Synset.senses list exactly the sense rows in scope; composite navigation is the composition '
+         'of single steps; equality keys are rowids (ILI+lexicon for placeholders); translate returns nothing without an ILI and '
+         'otherwise exactly the target-lexicon synsets sharing the ILI; all steps keep the Wordnet.',
+         CORE_TRUST, 'DESIGN.md section 5 C10, Appendix E'),
+ 'C11': ('Coq proof over the Gallina model of relation queries, closure and relation_paths (wn/_core.py, wn/_queries.py) plus a '
+         'refinement proof that the Python agenda loops (stack for relation_paths, queue for closure) compute the recursive '
+         'definitions in the same order; differential correspondence on wn.add-built and table-level databases (duplicate '
+         'relation rows, dc:type variants, cycles, self-loops, a corpus case that refuted an earlier fuel bound)',
+         'Theorems (closed under the global context): a (relation, target) pair is reported exactly when a relation row of a '
+         'requested type declared by an in-scope lexicon links source and an in-scope target; get_related/relations/relation_map are '
+         'projections of those pairs; Relation equality includes dc:type; closure terminates within the model\'s fuel, repeats no '
+         'identifier, lists only reachable entities and is exact when identifiers are unique; relation_paths terminates (fuel bound '
+         'proved sufficient) and yields only non-extendable simple chains; the agenda loops refine the recursion and terminate on '
+         'every finite graph.',
+         CORE_TRUST, 'DESIGN.md section 5 C11, Appendix E'),
+ 'C12': ('Coq proof over the Gallina model of Wordnet construction (expand defaults from dependencies) and '
+         'Synset._iter_expanded_relations written from wn/_core.py; differential correspondence on generated ILI-sharing lexicon '
+         'families and table-level databases in expand mode; document-level oracle on the real code',
+         'Theorems (closed under the global context): the expand set is the explicit argument or, by default for a restricted '
+         'Wordnet, the installed dependencies of the selection (a warning exactly when one is missing), empty for "" ; with no '
+         'expand lexicons or no ILI only local relations are returned; relations = local ++ expanded; an expanded relation exists '
+         'exactly when a synset of an expand lexicon with the same ILI has it, its target mapped to the in-scope synsets sharing '
+         'the target ILI or else one inferred placeholder. Proved as membership (order is decided by correspondence).',
+         CORE_TRUST, 'DESIGN.md section 5 C12, Appendix E'),
+})
+
 NOT_YET = 'not covered yet in this round: model, theorems and correspondence are planned (DESIGN.md sections 5 and 9) but no sound check is registered, so nothing is claimed'
 
 def main():
